@@ -29,6 +29,7 @@ Notation ttid := (Z * option Z)%type.      (* ThreadTaskId(thread_no, task_no) *
 
 Record state := mkSt {
   k_set : actor -> bool;                 (* TaskAndThreadKeeper._set *)
+  k_pend : actor -> bool;                (* the actor is inside TaskAndThreadKeeper._on_start (between its two counter calls) *)
   c_thread_ctr : Z;                      (* ThreadTaskIdComposer.thread_no_counter (next value) *)
   c_thread_no : Z -> option Z;           (* _thread_no_map : Thread -> ThreadNo *)
   c_task_ctr : Z -> Z;                   (* _task_no_counter_map : ThreadNo -> next TaskNo (defaultdict: 1) *)
@@ -39,7 +40,7 @@ Record state := mkSt {
 }.
 
 Definition init : state :=
-  mkSt (fun _ => false) 1 (fun _ => None) (fun _ => 1) (fun _ => None) (fun _ => None) 1 (fun _ => None).
+  mkSt (fun _ => false) (fun _ => false) 1 (fun _ => None) (fun _ => 1) (fun _ => None) (fun _ => None) 1 (fun _ => None).
 
 (** ThreadTaskIdComposer._compose *)
 Definition compose (s : state) (a : actor) : state * ttid :=
@@ -48,7 +49,7 @@ Definition compose (s : state) (a : actor) : state * ttid :=
     match c_thread_no s th with
     | Some tn => (s, tn)
     | None =>
-      (mkSt (k_set s) (c_thread_ctr s + 1) (updf Z.eqb (c_thread_no s) th (Some (c_thread_ctr s)))
+      (mkSt (k_set s) (k_pend s) (c_thread_ctr s + 1) (updf Z.eqb (c_thread_no s) th (Some (c_thread_ctr s)))
             (c_task_ctr s) (c_task_no s) (c_map s) (m_ctr s) (m_map s), c_thread_ctr s)
     end in
   match snd a with
@@ -58,7 +59,7 @@ Definition compose (s : state) (a : actor) : state * ttid :=
     | Some kn => (s1, (tn, Some kn))
     | None =>
       let kn := c_task_ctr s1 tn in
-      (mkSt (k_set s1) (c_thread_ctr s1) (c_thread_no s1) (updf Z.eqb (c_task_ctr s1) tn (kn + 1))
+      (mkSt (k_set s1) (k_pend s1) (c_thread_ctr s1) (c_thread_no s1) (updf Z.eqb (c_task_ctr s1) tn (kn + 1))
             (updf actor_eqb (c_task_no s1) a (Some kn)) (c_map s1) (m_ctr s1) (m_map s1), (tn, Some kn))
     end
   end.
@@ -69,34 +70,46 @@ Definition composer_call (s : state) (a : actor) : state * ttid :=
   | Some id => (s, id)
   | None =>
     let '(s1, id) := compose s a in
-    (mkSt (k_set s1) (c_thread_ctr s1) (c_thread_no s1) (c_task_ctr s1) (c_task_no s1)
+    (mkSt (k_set s1) (k_pend s1) (c_thread_ctr s1) (c_thread_no s1) (c_task_ctr s1) (c_task_no s1)
           (updf actor_eqb (c_map s1) a (Some id)) (m_ctr s1) (m_map s1), id)
   end.
 
+(** The start of a trace takes two counter calls in the actor's own thread
+    (`self._counter()` in TaskAndThreadKeeper._on_start, then
+    `trace_no = self._counter()` in TaskOrThreadToTraceMapper); other threads can
+    run in between, so they are two labels. *)
 Inductive label :=
-| Filtered (a : actor)            (* TaskAndThreadKeeper.filtered in actor a (a frame of a passed the filters) *)
+| Filtered (a : actor)            (* TaskAndThreadKeeper.filtered in actor a, up to and including self._counter() *)
+| Mapped (a : actor)              (* on_start_task_or_thread: trace number, OnStartTrace, then _set.add *)
 | Emit (a : actor) (payload : Z)  (* a trace call / prompt / stdout line produced by a: tagged current_trace_no() *)
 | End (a : actor).                (* TaskAndThreadKeeper._on_end(a) *)
 
 Inductive out :=
+| OComposed                                               (* thread / task numbers exist now; nothing emitted *)
 | OStart (trace_no thread_no : Z) (task_no : option Z)   (* OnStartTrace *)
-| OSeen                                                   (* already in _set *)
+| OSeen                                                   (* already in _set (or already starting) *)
 | OEv (trace_no : option Z) (payload : Z)                 (* event carrying trace_no (None: not attributed, dropped) *)
 | OEnd (trace_no : Z)                                     (* OnEndTrace *)
-| OErr.                                                   (* KeyError in on_end_task_or_thread *)
+| OErr.                                                   (* KeyError in on_end_task_or_thread / label not enabled *)
 
 Definition step (s : state) (l : label) : state * out :=
   match l with
   | Filtered a =>
-    if k_set s a then (s, OSeen)
+    if k_set s a || k_pend s a then (s, OSeen)
     else
-      (* _on_start: self._counter(); on_start_task_or_thread: trace_no = counter(); _map[current] = trace_no;
-         on_start_trace -> Repeater reads current_thread_no / current_task_no (composer again: cached) *)
       let '(s1, id) := composer_call s a in
-      let tr := m_ctr s1 in
-      (mkSt (updf actor_eqb (k_set s1) a true) (c_thread_ctr s1) (c_thread_no s1) (c_task_ctr s1) (c_task_no s1)
-            (c_map s1) (tr + 1) (updf actor_eqb (m_map s1) a (Some tr)),
+      (mkSt (k_set s1) (updf actor_eqb (k_pend s1) a true) (c_thread_ctr s1) (c_thread_no s1) (c_task_ctr s1)
+            (c_task_no s1) (c_map s1) (m_ctr s1) (m_map s1), OComposed)
+  | Mapped a =>
+    if k_pend s a then
+      (* trace_no = counter(); _map[current] = trace_no; on_start_trace -> Repeater reads
+         current_thread_no / current_task_no (composer again: cached in _map) *)
+      let tr := m_ctr s in
+      let id := match c_map s a with Some id => id | None => (0, None) end in
+      (mkSt (updf actor_eqb (k_set s) a true) (updf actor_eqb (k_pend s) a false) (c_thread_ctr s) (c_thread_no s)
+            (c_task_ctr s) (c_task_no s) (c_map s) (tr + 1) (updf actor_eqb (m_map s) a (Some tr)),
        OStart tr (fst id) (snd id))
+    else (s, OErr)
   | Emit a x => (s, OEv (m_map s a) x)
   | End a =>
     match m_map s a with
@@ -127,14 +140,14 @@ Notation ev := (label * out)%type.
 Fixpoint started (tr : list ev) (a : actor) : option (Z * ttid) :=
   match tr with
   | [] => None
-  | (Filtered b, OStart t tn kn) :: r => if actor_eqb a b then Some (t, (tn, kn)) else started r a
+  | (Mapped b, OStart t tn kn) :: r => if actor_eqb a b then Some (t, (tn, kn)) else started r a
   | _ :: r => started r a
   end.
 
 Fixpoint starts (tr : list ev) : list (actor * (Z * ttid)) :=
   match tr with
   | [] => []
-  | (Filtered b, OStart t tn kn) :: r => (b, (t, (tn, kn))) :: starts r
+  | (Mapped b, OStart t tn kn) :: r => (b, (t, (tn, kn))) :: starts r
   | _ :: r => starts r
   end.
 
@@ -143,7 +156,7 @@ Fixpoint starts (tr : list ev) : list (actor * (Z * ttid)) :=
 Definition out_eqb (a b : out) : bool :=
   match a, b with
   | OStart t n k, OStart t' n' k' => Z.eqb t t' && Z.eqb n n' && oz_eqb k k'
-  | OSeen, OSeen | OErr, OErr => true
+  | OSeen, OSeen | OErr, OErr | OComposed, OComposed => true
   | OEv t x, OEv t' x' => oz_eqb t t' && Z.eqb x x'
   | OEnd t, OEnd t' => Z.eqb t t'
   | _, _ => false
